@@ -29,10 +29,15 @@ type chSpec struct {
 	kids    []prSpec // not empty: the child is a parent queue, these are its leaf queues
 }
 
-// prAsk is an ask of an application: added with its priority, possibly removed again afterwards.
+// prAsk is an ask of an application: added with its priority, possibly removed again afterwards. recovered: not an ask
+// but an allocation that arrives already bound to a node (recovery after a restart / placed by the RM: the path
+// partition.UpdateAllocation takes for an unknown allocation with a node id: RecoverAllocationAsk + AddAllocation),
+// before the asks are added or (late) after the removals. It is not outstanding: it must not count for the priority.
 type prAsk struct {
-	prio    int32
-	removed bool
+	prio      int32
+	removed   bool
+	recovered bool
+	late      bool
 }
 
 // prSpec is what the priority of a queue is made of: the policy and offset properties (texts as configured, "" = not set)
@@ -90,7 +95,7 @@ func encPrSpec(p prSpec) map[string]interface{} {
 	for _, a := range p.apps {
 		asks := []interface{}{}
 		for _, k := range a {
-			asks = append(asks, map[string]interface{}{"prio": k.prio, "removed": k.removed})
+			asks = append(asks, map[string]interface{}{"prio": k.prio, "removed": k.removed, "recovered": k.recovered, "late": k.late})
 		}
 		apps = append(apps, asks)
 	}
@@ -104,7 +109,7 @@ func decPrSpec(v interface{}) prSpec {
 		asks := []prAsk{}
 		for _, k := range a.([]interface{}) {
 			km := k.(map[string]interface{})
-			asks = append(asks, prAsk{prio: int32(jsonInt(km["prio"])), removed: jsonBool(km["removed"])})
+			asks = append(asks, prAsk{prio: int32(jsonInt(km["prio"])), removed: jsonBool(km["removed"]), recovered: jsonBool(km["recovered"]), late: jsonBool(km["late"])})
 		}
 		p.apps = append(p.apps, asks)
 	}
@@ -221,7 +226,23 @@ func prApply(leaf *objects.Queue, p prSpec) {
 			ExecutionTimeoutMilliSeconds: 3600000}, security.UserGroup{User: "u"}, &relHandler{}, "rm")
 		app.SetQueue(leaf)
 		leaf.AddApplication(app)
+		recoverAlloc := func(i int, a prAsk) {
+			// as partition.UpdateAllocation does for an allocation it does not know that is already bound to a node
+			alloc := objects.NewAllocationFromSI(&si.Allocation{AllocationKey: fmt.Sprintf("%s-k%d", id, i), ApplicationID: id, Priority: a.prio,
+				NodeID: "node-1", ResourcePerAlloc: &si.Resource{Resources: map[string]*si.Quantity{"cpu": {Value: 1}}}})
+			if !alloc.IsAllocated() {
+				panic("recovered allocation is not allocated")
+			}
+			app.RecoverAllocationAsk(alloc)
+			app.AddAllocation(alloc)
+		}
 		for i, a := range asks {
+			if a.recovered {
+				if !a.late {
+					recoverAlloc(i, a)
+				}
+				continue
+			}
 			ask := objects.NewAllocationFromSI(&si.Allocation{AllocationKey: fmt.Sprintf("%s-k%d", id, i), ApplicationID: id, Priority: a.prio,
 				ResourcePerAlloc: &si.Resource{Resources: map[string]*si.Quantity{"cpu": {Value: 1}}}})
 			if err := app.AddAllocationAsk(ask); err != nil {
@@ -229,8 +250,13 @@ func prApply(leaf *objects.Queue, p prSpec) {
 			}
 		}
 		for i, a := range asks {
-			if a.removed {
+			if a.removed && !a.recovered {
 				app.RemoveAllocationAsk(fmt.Sprintf("%s-k%d", id, i))
+			}
+		}
+		for i, a := range asks {
+			if a.recovered && a.late {
+				recoverAlloc(i, a)
 			}
 		}
 	}
@@ -241,10 +267,13 @@ func prDump(q *objects.Queue, p prSpec) map[string]interface{} {
 	pol, off := q.GetPriorityPolicyAndOffset()
 	apps := []interface{}{}
 	for _, asks := range p.apps {
-		left := []int32{}
+		// what the application holds: [priority, allocated] — outstanding asks and the recovered (allocated) entries
+		left := [][]interface{}{}
 		for _, a := range asks {
-			if !a.removed {
-				left = append(left, a.prio)
+			if a.recovered {
+				left = append(left, []interface{}{a.prio, true})
+			} else if !a.removed {
+				left = append(left, []interface{}{a.prio, false})
 			}
 		}
 		apps = append(apps, left)
@@ -348,6 +377,7 @@ func sortChildrenCase(c *Ctx, cs chCase) {
 
 func genChildrenCase(c *Ctx) {
 	cs := chCase{}
+	chRecover = c.chance(0.35)
 	switch c.pick(10) {
 	case 0:
 		// no node registered: the root has no max
@@ -441,6 +471,9 @@ var prOffsets = []string{"0", "1", "-1", "1000", "1000000000", "-1000000000", "2
 
 // genPrSpec: policy / offset properties and (for a leaf) 0..3 applications with 0..3 asks each. edges: offsets and ask
 // priorities from the edges of int32 (sums that leave the range), else small values with many ties.
+// chRecover: this case has recovered / pre-placed allocations (set per case in genChildrenCase)
+var chRecover bool
+
 func (c *Ctx) genPrSpec(name string, edges bool, leaf bool) prSpec {
 	p := prSpec{name: name}
 	if edges {
@@ -472,6 +505,32 @@ func (c *Ctx) genPrSpec(name string, edges bool, leaf bool) prSpec {
 				ask.prio = prEdges[c.pick(len(prEdges))]
 			}
 			asks = append(asks, ask)
+		}
+		if chRecover && c.chance(0.6) {
+			// an allocation that arrives allocated: above, equal to or below the priorities of the pending asks
+			hi := int32(0)
+			for _, a := range asks {
+				if a.prio > hi {
+					hi = a.prio
+				}
+			}
+			rec := prAsk{recovered: true, late: c.chance(0.4)}
+			switch p := c.pick(10); {
+			case p < 6:
+				rec.prio = hi + 1 + int32(c.pick(3))
+				if hi > 2147483000 {
+					rec.prio = 2147483647
+				}
+			case p < 8:
+				rec.prio = hi
+			default:
+				rec.prio = hi - 1
+			}
+			if edges && c.chance(0.3) {
+				rec.prio = prEdges[c.pick(len(prEdges))]
+			}
+			pos := c.pick(len(asks) + 1)
+			asks = append(asks[:pos], append([]prAsk{rec}, asks[pos:]...)...)
 		}
 		p.apps = append(p.apps, asks)
 	}
